@@ -146,6 +146,7 @@ def parseOp (ts : List String) : Option (Op DVal) :=
   | ["set", n, v] => do pure (.setattr (← n.toNat?) (← parseVal v))
   | ["del", n] => do pure (.delattr (← n.toNat?))
   | ["with", n, v] => do pure (.withAttr (← n.toNat?) (← parseVal v))
+  | ["withu", n, v] => do pure (.updateAttr (← n.toNat?) (← parseVal v))
   | ["tf", n, f] => do pure (.transformAttr (← n.toNat?) (← tfPool f))
   | ["rst", n] => do pure (.resetAttr (← n.toNat?))
   | ["elem", n, k, x] => do pure (.elem (← n.toNat?) (← elemPool k (← parseVal x)))
